@@ -239,12 +239,35 @@ func TestDedupFreeRun(t *testing.T) {
 				cl.end = time.Now()
 			}()
 		}
+		// scheduling-noise monitor: on a badly overloaded machine wall-clock
+		// bounds say nothing about the code; such rounds are not judged on time
+		var maxLag atomic.Int64
+		stopBeat := make(chan struct{})
+		go func() {
+			for {
+				t0 := time.Now()
+				select {
+				case <-stopBeat:
+					return
+				case <-time.After(5 * time.Millisecond):
+				}
+				if lag := int64(time.Since(t0) - 5*time.Millisecond); lag > maxLag.Load() {
+					maxLag.Store(lag)
+				}
+			}
+		}()
 		finished := make(chan struct{})
 		go func() { all.Wait(); close(finished) }()
 		limit := 4*time.Second + margin + 2*time.Second
 		select {
 		case <-finished:
+			close(stopBeat)
 		case <-time.After(limit):
+			close(stopBeat)
+			if time.Duration(maxLag.Load()) > 300*time.Millisecond {
+				res.Skip("round %d: machine too loaded to judge wall-clock bounds (scheduling lag %v)", round, time.Duration(maxLag.Load()))
+				return
+			}
 			stuck := []int{}
 			for _, cl := range clients {
 				if cl.end.IsZero() {
@@ -254,6 +277,10 @@ func TestDedupFreeRun(t *testing.T) {
 			res.Violate("dedup-free/EventuallyAnswered", fmt.Sprintf("free-running dedup round %d (W=%v, longLeader=%v, probeKey=%d): requests %v still had not returned %v after their arrival (deadline %v): wedged",
 				round, W, longLeader, probeKey, stuck, limit, D), map[string]any{"driver": "dedup-free", "round": round, "seed": vh.Seed()})
 			return
+		}
+		noisy := time.Duration(maxLag.Load()) > 300*time.Millisecond
+		if noisy {
+			res.Count("noisy_rounds", 1)
 		}
 		ok := true
 		for i, cl := range clients {
@@ -267,7 +294,7 @@ func TestDedupFreeRun(t *testing.T) {
 			case n == 0 && !cl.canceled.Load():
 				res.Violate("dedup-free/ExactlyOneReply", fmt.Sprintf("free-running dedup round %d: client %d (key %d) returned without any reply although it did not go away", round, cl.id, cl.key), replay)
 				ok = false
-			case n == 1 && !cl.canceled.Load() && cl.tr.at.Sub(cl.start) > cl.deadline+margin:
+			case n == 1 && !noisy && !cl.canceled.Load() && cl.tr.at.Sub(cl.start) > cl.deadline+margin:
 				res.Violate("dedup-free/InTime", fmt.Sprintf("free-running dedup round %d (W=%v): client %d (key %d) was answered %v after arrival; its deadline is %v (+%v margin)",
 					round, W, cl.id, cl.key, cl.tr.at.Sub(cl.start).Round(time.Millisecond), cl.deadline, margin), replay)
 				ok = false
